@@ -260,6 +260,18 @@ func withinQuantisation(want, got []world.Op, hi []bool) string {
 }
 
 func c10Decodes(ctx *Ctx, b []byte, vb ivg.ViewBox, pal [64]color.RGBA, since []world.Op, hi []bool, at int) *report.Violation {
+	// the clause is stated for a valid viewBox (finite bounds, min <= max);
+	// with any other the history is still violation-free (Bytes must not
+	// report an error: the automaton says so), but nothing is promised about
+	// the decoder
+	for _, f := range []float32{vb.MinX, vb.MinY, vb.MaxX, vb.MaxY} {
+		if f != f || f-f != 0 {
+			return nil
+		}
+	}
+	if vb.MinX > vb.MaxX || vb.MinY > vb.MaxY {
+		return nil
+	}
 	rd := &world.RecDest{}
 	var err error
 	if p, _, msg := guard(func() { err = decode.Decode(rd, b) }); p {
@@ -714,6 +726,13 @@ func genHistory(t *tape.Tape) []world.Op {
 		switch cls := t.Pick(wReset, wObs+1, 6, 2); {
 		case cls == 0:
 			o = world.Op{K: world.KReset, VB: world.GenViewBox(t), Pal: world.GenPalette(t)}
+			if t.Chance(1, 8) {
+				// a viewBox the format calls invalid is not a protocol violation:
+				// the Encoder must not start reporting errors because of it
+				nan, inf := float32(math.NaN()), float32(math.Inf(1))
+				o.VB = []ivg.ViewBox{{MinX: 8, MinY: 0, MaxX: -8, MaxY: 4}, {MinX: 0, MinY: 9, MaxX: 1, MaxY: 3}, {MinX: nan, MinY: 0, MaxX: 1, MaxY: 1},
+					{MinX: 0, MinY: 0, MaxX: inf, MaxY: 1}, {MinX: -inf, MinY: 0, MaxX: 1, MaxY: 1}, {MinX: 3, MinY: 3, MaxX: 3, MaxY: 3}, {}}[t.Intn(7)]
+			}
 		case cls == 1:
 			o = probeOp(t)
 			if t.Chance(1, 4) {
